@@ -314,6 +314,78 @@ pub fn c01(tier: Tier) -> i32 {
         }));
     }
 
+    // Stream 5: large modes (40-150 patterns, automata with hundreds of states): keyword sets with
+    // shared prefixes and suffixes over a small alphabet plus a few general patterns; the scan loop
+    // has to keep many states alive at once.
+    let nlarge = ctx.scale(1_500, 60_000);
+    res.merge(run_cases(&ctx, 5, nlarge, |rng, _i, st| {
+        let letters: Vec<char> = match rng.below(3) {
+            0 => vec!['a', 'b', 'c'],
+            1 => vec!['a', 'b', 'é', '€'],
+            _ => "abcdefghijklmnopqrstuvwxyz0123456789αβγδεζηθικλμ".chars().collect(),
+        };
+        let n = rng.range(40, 150);
+        let lit = |c: char| Re::Lit(c, LitStyle::Verbatim);
+        let mut words: Vec<String> = Vec::new();
+        let common_first = rng.chance(1, 2);
+        let mut attempts = 0;
+        while words.len() < n && attempts < 5_000 {
+            attempts += 1;
+            let len = rng.range(1, if letters.len() <= 4 { 6 } else { 4 });
+            let mut w = String::new();
+            if common_first {
+                w.push('x');
+            }
+            for _ in 0..len {
+                w.push(*rng.pick(&letters));
+            }
+            if !words.contains(&w) {
+                words.push(w);
+            }
+        }
+        let mut pats: Vec<RefPattern> = words
+            .iter()
+            .enumerate()
+            .map(|(i, w)| RefPattern {
+                re: if w.chars().count() == 1 { lit(w.chars().next().unwrap()) } else { Re::Cat(w.chars().map(lit).collect()) },
+                tt: i,
+                la: None,
+            })
+            .collect();
+        let p = GenParams::default();
+        for _ in 0..rng.below(4) {
+            let at = rng.below(pats.len() + 1);
+            pats.insert(at, RefPattern { re: gen_re(rng, &p), tt: 0, la: None });
+        }
+        for (i, p) in pats.iter_mut().enumerate() {
+            p.tt = i;
+        }
+        let cfg = ScannerCfg::single(pats);
+        if !guard_roundtrip(&cfg) {
+            return CaseOutcome::Skipped;
+        }
+        // input: keywords, prefixes of keywords and noise
+        let mut input = String::new();
+        while input.chars().count() < 30 {
+            match rng.below(5) {
+                0 => input.push(*rng.pick(&letters)),
+                1 => input.push(*rng.pick(&['x', '-', ' '])),
+                _ => {
+                    let w = &words[rng.below(words.len())];
+                    let k = if rng.chance(1, 4) { rng.range(1, w.chars().count()) } else { w.chars().count() };
+                    input.extend(w.chars().take(k));
+                }
+            }
+        }
+        st.count("large_mode_scans");
+        st.nontrivial(nontrivial_hash(&cfg, &input, 0));
+        let path = if rng.chance(1, 3) { BuildPath::AddPatterns } else { BuildPath::Uncached };
+        match run_tok_case("tok", TokOracle::FullRule, &cfg, &input, 0, path, st) {
+            Ok(()) => CaseOutcome::Ok,
+            Err(v) => CaseOutcome::Violated(v),
+        }
+    }));
+
     // Stream 4: the valid rows of the repository's match_test.rs (pattern + input), judged by the
     // harness's oracle (not by the expectations written in the file).
     {
@@ -340,7 +412,7 @@ pub fn c01(tier: Tier) -> i32 {
     }
 
     let report = Report::new(
-        "stream 4: the valid rows of the repository's tests/match_test.rs re-judged by the reference; stream 1: random lookahead-free modes (1-6 patterns as IR: literals in all escape styles, dot, classes, Perl classes, groups, alternation incl. empty branches, * + ? {m} {m,} {m,n}; token types by index or arbitrary u32 values) x inputs of 0-40 chars built from members/near-misses of the pattern languages plus noise, through build_uncached / build / add_patterns; stream 2: every IR term with <= k operators over {a,b} as single pattern x every string over {a,b,z} up to length L (exhaustive sub-space); thorough adds sampled term pairs. Oracle: denotational matcher + longest-match/first-pattern/skip rule. A case is non-trivial if tokens were produced and a tie-break, a later-pattern-wins-by-length or a skip event occurred (stream 1) / a token was produced (stream 2); distinct by hash of (configuration, input).",
+        "stream 5: large modes of 40-150 patterns (keyword sets with shared prefixes over 3 to 48 letters plus general patterns; automata with hundreds of states); stream 4: the valid rows of the repository's tests/match_test.rs re-judged by the reference; stream 1: random lookahead-free modes (1-6 patterns as IR: literals in all escape styles, dot, classes, Perl classes, groups, alternation incl. empty branches, * + ? {m} {m,} {m,n}; token types by index or arbitrary u32 values) x inputs of 0-40 chars built from members/near-misses of the pattern languages plus noise, through build_uncached / build / add_patterns; stream 2: every IR term with <= k operators over {a,b} as single pattern x every string over {a,b,z} up to length L (exhaustive sub-space); thorough adds sampled term pairs. Oracle: denotational matcher + longest-match/first-pattern/skip rule. A case is non-trivial if tokens were produced and a tie-break, a later-pattern-wins-by-length or a skip event occurred (stream 1) / a token was produced (stream 2); distinct by hash of (configuration, input).",
     )
     .floor("tie_break", 1000)
     .floor("later_wins_by_length", 1000)
@@ -350,6 +422,7 @@ pub fn c01(tier: Tier) -> i32 {
     .floor("built_via_add_patterns", 200)
     .floor("systematic_scans", 100_000)
     .floor("repository_rows_checked", 100)
+    .floor("large_mode_scans", 1_000)
     .assume("regex-syntax 0.8 is only used as a guard (printed IR must parse back to the same structure, otherwise the case is skipped and counted)")
     .assume("non-ASCII membership of \\d \\s \\w is calibrated on the scanner built from that item alone (C08 covers the items themselves)")
     .extra("systematic_terms", json!(sys_terms))
@@ -373,6 +446,21 @@ fn gen_la_mode(rng: &mut Rng, p: &GenParams, min_pats: usize) -> ScannerCfg {
     if !cfg.modes[0].has_lookahead() {
         let k = rng.below(cfg.modes[0].pats.len());
         cfg.modes[0].pats[k].la = Some((rng.chance(1, 2), gen_non_nullable(rng, p)));
+    }
+    // stated bound: a token type that carries a lookahead belongs to one pattern only
+    let pats = &mut cfg.modes[0].pats;
+    for i in 0..pats.len() {
+        if pats[i].la.is_some() {
+            for j in 0..pats.len() {
+                if j != i && pats[j].tt == pats[i].tt {
+                    let mut t = 2_000;
+                    while pats.iter().any(|p| p.tt == t) {
+                        t += 1;
+                    }
+                    pats[j].tt = t;
+                }
+            }
+        }
     }
     cfg
 }
@@ -658,7 +746,17 @@ pub fn c05(tier: Tier) -> i32 {
         }
         let res_refs = cfg0.all_res();
         let input = gen_input(rng, &res_refs, &p.letters, 16);
-        let pats = cfg0.modes[0].pats.clone();
+        let mut pats = cfg0.modes[0].pats.clone();
+        // permutations would separate two adjacent patterns of one token type: keep the types distinct
+        for i in 0..pats.len() {
+            if pats[..i].iter().any(|q| q.tt == pats[i].tt) {
+                let mut t = 3_000;
+                while pats.iter().any(|q| q.tt == t) {
+                    t += 1;
+                }
+                pats[i].tt = t;
+            }
+        }
         let k = pats.len().min(4);
         let mut idx: Vec<usize> = (0..k).collect();
         // Heap's algorithm, iterative
